@@ -52,3 +52,36 @@ MUTATIONS = [
     dict(prop="C17", name="import-note-hash-collides-across-channels", file=IM,
          old="    return channel * 128 + pitch", new="    return channel * 12 + pitch"),
 ]
+
+# ---- generator audit (docs/audit/C17.md): breakages only the added shapes expose
+MU = "partitura/utils/music.py"
+MUTATIONS += [
+    # files held nothing but notes and signatures
+    dict(prop="C17", name="audit-import-ignored-messages-lose-their-time", file=IM,
+         old="            t_raw = t_raw + msg.time\n\n            if msg.type not in relevant:\n                continue\n",
+         new="            if msg.type not in relevant:\n                continue\n\n            t_raw = t_raw + msg.time\n"),
+    # every note was ended by a note_off message
+    dict(prop="C17", name="audit-import-note-on-velocity-0-not-an-off", file=IM,
+         old="                elif note_off or (note_on and msg.velocity == 0):", new="                elif note_off:", count=2),  # first occurrence is load_performance_midi
+    # the file was always given as a str path
+    dict(prop="C17", name="audit-import-midofile-reopened-by-name", file=IM,
+         old="        mid = filename\n        doc_name = filename.filename", new="        mid = mido.MidiFile(filename.filename)\n        doc_name = filename.filename", count=2),
+    # quantization_unit / assign_note_ids were never given
+    dict(prop="C17", name="audit-import-quantizes-delta-time", file=IM,
+         old="                t = quantize(t_raw, quantization_unit)", new="                t = quantize(msg.time, quantization_unit)"),
+    dict(prop="C17", name="audit-import-without-ids-loses-a-note", file=IM,
+         old="        note_ids = [None for i in range(len(note_array))]", new="        note_ids = [None for i in range(len(note_array) - 1)]"),
+    # arrays never held score and performance columns together
+    dict(prop="C17", name="audit-performance-columns-preferred", file=MU,
+         old='    if len(score_units.intersection(fields)) > 0:\n        if "onset_beat" in fields:',
+         new='    if len(score_units.intersection(fields)) > 0 and len(performance_units.intersection(fields)) == 0:\n        if "onset_beat" in fields:'),
+    # only structured arrays were handed over
+    dict(prop="C17", name="audit-spelling-takes-arrays-only", file=PS,
+         old="    step, alter, octave = ps(ensure_notearray(note_info), **kwargs)", new="    step, alter, octave = ps(note_info, **kwargs)"),
+    dict(prop="C17", name="audit-key-takes-arrays-only", file=KI,
+         old="    note_array = ensure_notearray(note_info)\n\n    return kid(", new="    note_array = note_info\n\n    return kid("),
+    # the caller's array was never looked at after the call
+    dict(prop="C17", name="audit-key-folds-pitches-in-place", file=KI,
+         old='    pitch_classes = np.mod(note_array["pitch"], 12)\n',
+         new='    note_array["pitch"] %= 12\n    pitch_classes = note_array["pitch"]\n'),
+]
